@@ -57,6 +57,51 @@ func (c13) step(t []string) string {
 		need(t, 2)
 		var tr [][2]int
 		slices.PairsFunc(parseInts(t[1]), func(a, b int) { tr = append(tr, [2]int{a, b}) })
+		// the same call on INTERFACE elements some of which are nil (multiples of 3 become nil), and on pointer elements with nils: a nil element is
+		// an element like any other; the calls must be the ones of the int instantiation
+		enc := func(v int) int {
+			if v%3 == 0 {
+				return -1
+			}
+			return v
+		}
+		var want, gotAny, gotPtr [][2]int
+		for _, p := range tr {
+			want = append(want, [2]int{enc(p[0]), enc(p[1])})
+		}
+		var anys []any
+		var ptrs []*int
+		for _, v := range parseInts(t[1]) {
+			v := v
+			if v%3 == 0 {
+				anys, ptrs = append(anys, nil), append(ptrs, nil)
+			} else {
+				anys, ptrs = append(anys, v), append(ptrs, &v)
+			}
+		}
+		dec := func(x any) int {
+			if x == nil {
+				return -1
+			}
+			return x.(int)
+		}
+		slices.PairsFunc(anys, func(a, b any) { gotAny = append(gotAny, [2]int{dec(a), dec(b)}) })
+		slices.PairsFunc(ptrs, func(a, b *int) {
+			d := func(p *int) int {
+				if p == nil {
+					return -1
+				}
+				return *p
+			}
+			gotPtr = append(gotPtr, [2]int{d(a), d(b)})
+		})
+		var pa [][2]int
+		for _, p := range slices.Pairs(anys) {
+			pa = append(pa, [2]int{dec(p[0]), dec(p[1])})
+		}
+		if w := fmtPairs(want); fmtPairs(gotAny) != w || fmtPairs(gotPtr) != w || fmtPairs(pa) != w {
+			return "instances-differ:" + w + "/" + fmtPairs(gotAny) + "/" + fmtPairs(gotPtr) + "/" + fmtPairs(pa)
+		}
 		return fmtPairs(tr)
 	}
 	return bad()
